@@ -6,17 +6,23 @@ Open Scope N_scope.
 
 (* Table.Get on a table fresh from the writer: the entry with that key (tombstone value dropped) or NotFound, for
    every key: present, absent between entries, before the first, after the last, bloom false positive or not *)
-Theorem table_get_is_find es key : run_ok es -> table_get (write_table es) key = get_spec es key.
-Proof. intros H. apply table_get_is_find_gen; [exact H|apply bloom_of_no_false_negative]. Qed.
-
-Theorem table_get_reopen_is_find es key : run_ok es -> table_get (reopen (write_table es)) key = get_spec es key.
+Theorem table_get_is_find tp es key : params_ok tp -> run_ok es -> table_get (write_table tp es) key = get_spec es key.
 Proof.
-  intros H. unfold table_get. rewrite table_get_reopen_same by apply H. apply table_get_is_find. exact H.
+  intros Hp H. apply table_get_is_find_gen; [apply Hp|exact H|intros e He; apply bloom_of_no_false_negative; assumption].
 Qed.
 
-Theorem table_get_never_panics es key : run_ok es ->
-  table_get (write_table es) key <> GPanic /\ table_get (write_table es) key <> GErr.
-Proof. intros H. apply table_get_total; [exact H|apply bloom_of_no_false_negative]. Qed.
+Theorem table_get_reopen_is_find tp es key :
+  params_ok tp -> run_ok es -> table_get (reopen (write_table tp es)) key = get_spec es key.
+Proof.
+  intros Hp H. unfold table_get. rewrite table_get_reopen_same by (try exact Hp; apply H).
+  apply table_get_is_find; assumption.
+Qed.
+
+Theorem table_get_never_panics tp es key : params_ok tp -> run_ok es ->
+  table_get (write_table tp es) key <> GPanic /\ table_get (write_table tp es) key <> GErr.
+Proof.
+  intros Hp H. apply table_get_total; [apply Hp|exact H|intros e He; apply bloom_of_no_false_negative; assumption].
+Qed.
 
 Theorem write_run_partition es target : 1 <= target ->
   concat (write_run es target) = es /\ write_run es target <> [] /\
@@ -29,15 +35,15 @@ Proof.
 Qed.
 
 (* every table of a split run answers point lookups and prefix scans with exactly its own chunk of the run *)
-Theorem write_run_tables_read_back es target : 1 <= target -> run_ok es ->
+Theorem write_run_tables_read_back tp es target : params_ok tp -> 1 <= target -> run_ok es ->
   Forall (fun c => run_ok c /\
-                   (forall key, table_get (write_table c) key = get_spec c key) /\
-                   (forall key, table_get (reopen (write_table c)) key = get_spec c key) /\
-                   (forall p, table_scan_prefix (write_table c) p = Some (scan_spec c p)) /\
-                   (forall p, table_scan_prefix (reopen (write_table c)) p = Some (scan_spec c p)))
+                   (forall key, table_get (write_table tp c) key = get_spec c key) /\
+                   (forall key, table_get (reopen (write_table tp c)) key = get_spec c key) /\
+                   (forall p, table_scan_prefix (write_table tp c) p = Some (scan_spec c p)) /\
+                   (forall p, table_scan_prefix (reopen (write_table tp c)) p = Some (scan_spec c p)))
          (write_run es target).
 Proof.
-  intros Ht (Hok & Hs & Hsz).
+  intros Hp Ht (Hok & Hs & Hsz).
   assert (Hc : concat (write_run es target) = es) by (apply write_run_concat; exact Ht).
   assert (Hsorted : Forall (fun c => keys_sorted c = true) (write_run es target)).
   { destruct es as [|e es'].
@@ -54,8 +60,8 @@ Proof.
       assert (forall a b c : nat, (N.of_nat a + (N.of_nat b + N.of_nat c) < 4294967296) -> N.of_nat b < 4294967296) as Hl3
         by (intros; Lia.lia).
       eapply Hl3. exact Hsz. }
-  split; [exact Hrun|]. split; [intros key; apply table_get_is_find; exact Hrun|].
-  split; [intros key; apply table_get_reopen_is_find; exact Hrun|].
+  split; [exact Hrun|]. split; [intros key; apply table_get_is_find; assumption|].
+  split; [intros key; apply table_get_reopen_is_find; assumption|].
   destruct Hrun as (Ho & _ & Hz).
   split; [intros p; apply table_scan_is_filter; exact Ho|intros p; apply table_scan_reopen_is_filter; assumption].
 Qed.
@@ -68,31 +74,31 @@ Lemma find_key_app key a b :
   find_key key (a ++ b) = match find_key key a with Some e => Some e | None => find_key key b end.
 Proof. induction a as [|e a IH]; [reflexivity|]. cbn [app find_key]. destruct (beqb (e_key e) key); [reflexivity|exact IH]. Qed.
 
-Lemma level_read_chunks (reop : table -> table) chunks :
-  Forall (fun c => (forall key, table_get (reop (write_table c)) key = get_spec c key) /\
-                   (forall p, table_scan_prefix (reop (write_table c)) p = Some (scan_spec c p))) chunks ->
-  (forall p, level_scan (map (fun c => reop (write_table c)) chunks) p = Some (scan_spec (concat chunks) p)) /\
-  (forall key, level_get (map (fun c => reop (write_table c)) chunks) key = get_spec (concat chunks) key).
+Lemma level_read_chunks tp (reop : table -> table) chunks :
+  Forall (fun c => (forall key, table_get (reop (write_table tp c)) key = get_spec c key) /\
+                   (forall p, table_scan_prefix (reop (write_table tp c)) p = Some (scan_spec c p))) chunks ->
+  (forall p, level_scan (map (fun c => reop (write_table tp c)) chunks) p = Some (scan_spec (concat chunks) p)) /\
+  (forall key, level_get (map (fun c => reop (write_table tp c)) chunks) key = get_spec (concat chunks) key).
 Proof.
   induction 1 as [|c cs [Hg Hs] _ [IHs IHg]]; [split; reflexivity|]. split.
-  - intros p. cbn [map level_scan fold_right concat]. fold (level_scan (map (fun c => reop (write_table c)) cs) p).
+  - intros p. cbn [map level_scan fold_right concat]. fold (level_scan (map (fun c => reop (write_table tp c)) cs) p).
     rewrite Hs, IHs, scan_spec_app. reflexivity.
   - intros key. cbn [map level_get concat]. rewrite Hg, IHg. unfold get_spec. rewrite find_key_app.
     destruct (find_key key c); reflexivity.
 Qed.
 
-Theorem level_reads_run_back es target : 1 <= target -> run_ok es ->
-  (forall p, level_scan (map write_table (write_run es target)) p = Some (scan_spec es p)) /\
-  (forall key, level_get (map write_table (write_run es target)) key = get_spec es key) /\
-  (forall p, level_scan (map (fun c => reopen (write_table c)) (write_run es target)) p = Some (scan_spec es p)) /\
-  (forall key, level_get (map (fun c => reopen (write_table c)) (write_run es target)) key = get_spec es key).
+Theorem level_reads_run_back tp es target : params_ok tp -> 1 <= target -> run_ok es ->
+  (forall p, level_scan (map (write_table tp) (write_run es target)) p = Some (scan_spec es p)) /\
+  (forall key, level_get (map (write_table tp) (write_run es target)) key = get_spec es key) /\
+  (forall p, level_scan (map (fun c => reopen (write_table tp c)) (write_run es target)) p = Some (scan_spec es p)) /\
+  (forall key, level_get (map (fun c => reopen (write_table tp c)) (write_run es target)) key = get_spec es key).
 Proof.
-  intros Ht Hok. pose proof (write_run_tables_read_back es target Ht Hok) as H.
+  intros Hp Ht Hok. pose proof (write_run_tables_read_back tp es target Hp Ht Hok) as H.
   assert (Hc : concat (write_run es target) = es) by (apply write_run_concat; exact Ht).
-  destruct (level_read_chunks (fun t => t) (write_run es target)) as [A B].
+  destruct (level_read_chunks tp (fun t => t) (write_run es target)) as [A B].
   { eapply Forall_impl; [|exact H]. intros c (_ & G & _ & S & _). split; assumption. }
-  destruct (level_read_chunks reopen (write_run es target)) as [C D].
+  destruct (level_read_chunks tp reopen (write_run es target)) as [C D].
   { eapply Forall_impl; [|exact H]. intros c (_ & _ & G & _ & S). split; assumption. }
-  rewrite Hc in A, B, C, D. rewrite map_ext with (g := write_table) in A, B by reflexivity.
+  rewrite Hc in A, B, C, D. rewrite map_ext with (g := write_table tp) in A, B by reflexivity.
   repeat split; assumption.
 Qed.
